@@ -737,4 +737,36 @@ theorem LifeC.sweep_fold_nopend (l : List CApp) : ∀ (c : Core), CoreWF c → B
 theorem nopend_sweepTerminated (c : Core) (hw : CoreWF c) (hb : Books c) (hp : NoPendInv c) :
     NoPendInv c.sweepTerminated := LifeC.sweep_fold_nopend c.apps c hw hb hp
 
+/-- the record that leaves lists no ask at all: `leaveApp` also keeps the clause about asks in its mid-removal form -/
+theorem nopendMid_leaveApp (c : Core) (app : String) (hw : CoreWF c) (hp : NoPendMid c) : NoPendMid (c.leaveApp app) := by
+  cases hfind : c.findApp app with
+  | none =>
+    have : c.leaveApp app = c := by unfold leaveApp; simp only [hfind]
+    rw [this]; exact hp
+  | some a =>
+    obtain ⟨ham, hl, hid⟩ := findApp_some hfind
+    have h1 := LifeC.appNoPend_leftApp a
+    exact LifeC.upd_all (P := AppNoPendMid) hw ham hl hid (LifeC.leaveApp_shape c app a hfind).1
+      ⟨h1.completingNoPending, fun _ => h1.completedNoAsk⟩ hp
+
+theorem LifeC.sweep_fold_nopendMid (l : List CApp) : ∀ (c : Core), CoreWF c → Books c → NoPendMid c →
+    NoPendMid (l.foldl (fun c a => if a.live && terminated a.state then leaveApp c a.id else c) c) := by
+  induction l with
+  | nil => intro c _ _ hp; exact hp
+  | cons a t ih =>
+    intro c hw hb hp
+    rw [List.foldl_cons]
+    by_cases hc : (a.live && terminated a.state) = true
+    · rw [if_pos hc]
+      obtain ⟨hb1, hw1⟩ := leaveApp_props c a.id hw hb
+      exact ih _ hw1 hb1 (nopendMid_leaveApp c a.id hw hp)
+    · rw [if_neg hc]
+      exact ih c hw hb hp
+
+/-- at the end of a node removal: the terminated applications have left (`life_sweepTerminated`), so the clause about
+    asks holds in full again -/
+theorem nopend_sweepTerminated_mid (c : Core) (hw : CoreWF c) (hb : Books c) (hL : LifeCore c) (hp : NoPendMid c) :
+    NoPendInv c.sweepTerminated :=
+  NoPendMid.inv (LifeC.sweep_fold_nopendMid c.apps c hw hb hp) (life_sweepTerminated c hw hb hL).termGone
+
 end Yk
